@@ -684,8 +684,44 @@ func normalise(prog *ssa.Program) (map[*ssa.Function]bool, *ssa.VerifNorm, []str
 		matched := map[string]bool{}
 		matchedFn := map[*ssa.Function]bool{}
 		for k, gone := range goneBy {
-			if len(gone) == 1 && len(newBy[k]) == 1 {
-				fn := newBy[k][0]
+			cands := newBy[k]
+			if len(gone) == 1 && len(cands) > 1 {
+				// a function renamed AND pulled apart into helpers of the same signature: the renamed one is the only
+				// candidate that somebody other than the candidates calls (its helpers are called by it alone)
+				isCand := map[*ssa.Function]bool{}
+				for _, cfn := range cands {
+					isCand[cfn] = true
+				}
+				outside := map[*ssa.Function]bool{}
+				for _, caller := range fns {
+					if isCand[caller] {
+						continue
+					}
+					var visit func(g *ssa.Function)
+					visit = func(g *ssa.Function) {
+						for _, b := range g.Blocks {
+							for _, in := range b.Instrs {
+								if call, ok := in.(ssa.CallInstruction); ok {
+									if callee := call.Common().StaticCallee(); callee != nil && isCand[callee] {
+										outside[callee] = true
+									}
+								}
+							}
+						}
+						for _, a := range g.AnonFuncs {
+							visit(a)
+						}
+					}
+					visit(caller)
+				}
+				if len(outside) == 1 {
+					for cfn := range outside {
+						cands = []*ssa.Function{cfn}
+					}
+				}
+			}
+			if len(gone) == 1 && len(cands) == 1 {
+				fn := cands[0]
 				old := gone[0]
 				renames = append(renames, fn.String()+": taken to be the renamed "+old)
 				ssa.VerifRename(fn, old[strings.LastIndex(old, ".")+1:])
